@@ -55,22 +55,33 @@ def check(run: Run) -> None:
             if not fa.cfg.has_node(c):
                 continue
             t = strip_sites(fa.term_of(c.func))
-            kind = None
-            if contains(t, lambda s: s[0] == "attr" and s[2] == "_func_adl_type_info"):
-                kind = "method/class callback"
-            elif t[0] == "attr" and t[2] == "processor_function":
-                kind = "function processor"
-            elif t[0] == "attr" and t[2] == "callback":
-                kind = "parameterized property callback"
+            kind = _callback_kind(t)
             if kind:
-                sites.append((fi, c, kind))
+                sites.append((fi, c, kind, None))
+            elif t[0] == "param" and fi.name.startswith("_") and fi.pos_params and t[1] in fi.pos_params[1:]:
+                # a private helper that invokes a callable it is handed: the kind is decided where it is called from
+                from ..lib import call_sites_of
+
+                for caller, call, skip in call_sites_of(m, fi):
+                    cfa = ctx.analysis(caller)
+                    k_ = fi.pos_params[skip:].index(t[1]) if t[1] in fi.pos_params[skip:] else None
+                    actual = call.args[k_] if k_ is not None and k_ < len(call.args) else next((kw.value for kw in call.keywords if kw.arg == t[1]), None)
+                    if actual is None or not cfa.cfg.has_node(actual):
+                        continue
+                    kind = _callback_kind(strip_sites(cfa.term_of(actual)))
+                    if kind:
+                        sites.append((caller, call, kind, (fi, c)))
     allowed = {"process_method_callbacks": "method/class callback", "process_function_call": "function processor", "process_parameterized_method_call": "parameterized property callback"}
     run.floor("C09.R5", len(sites), 3, "callback invocation sites")
-    for fi, c, kind in sites:
+    for fi, c, kind, _via in sites:
         run.check(allowed.get(fi.name) == kind, "C09.R5", fi, stmt_of(c), f"{kind} invoked from its designated site", f"a {kind} is invoked from {fi.name}: callbacks may fire for call sites that are not being processed")
     run.check(len(sites) == 3, "C09.R5", None, None, "exactly three invocation sites", f"{len(sites)} callback invocation sites")
-    for fi, c, kind in sites:
-        _threading(run, ctx, eff, m, fi, c, kind)
+    for fi, c, kind, via in sites:
+        if via is None:
+            _threading(run, ctx, eff, m, fi, c, kind)
+        else:
+            # inside the helper: stream threading, unpacking, back-link; at the caller: the node variable is replaced by the result
+            _threading(run, ctx, eff, m, via[0], via[1], kind, helper_of=(fi, c))
 
     # ---------------- R1: order and caller
     pc = need("process_method_callbacks")
@@ -175,7 +186,10 @@ def check(run: Run) -> None:
     gvs = [c for c in calls_in(fvisit) if isinstance(c.func, ast.Attribute) and c.func.attr == "generic_visit" and c.args and strip_sites(ff.term_of(c.args[0])) == nodep]
     every = len(gvs) == 1 and ff.cfg.postdominates(ff.cfg.node_of(gvs[0]), ff.cfg.entry) or (len(gvs) > 1 and all(sum(1 for x in p if x in {ff.cfg.node_of(g) for g in gvs}) == 1 for p in ff.cfg.paths()))
     run.check(bool(gvs) and every, "C09.R3", fvisit, gvs[0] if gvs else fvisit.node, "the children of every call are visited, whatever the call is", "scan_for_metadata does not descend into every call (e.g. not below a MetaData call it has just reported): of directly nested MetaData wrappers - two callbacks firing for one call site inside a collection lambda - only the outermost reaches the stream", "self.generic_visit(node) unconditionally")
-    cbs = [c for c in calls_in(fvisit) if isinstance(c.func, ast.Name) and c.func.id == sm.pos_params[1]]
+    from ..lib import carried_param_terms
+
+    cb_terms = carried_param_terms(m, TermCtx(m, max_depth=1), sm, finders[0], fvisit, sm.pos_params[1])
+    cbs = [c for c in calls_in(fvisit) if ff.cfg.has_node(c) and strip_sites(ff.term_of(c.func)) in cb_terms]
     ok = len(cbs) == 1 and strip_sites(ff.term_of(cbs[0].args[0])) == ("index", ("attr", nodep, "args"), 1)
     run.check(ok, "C09.R3", fvisit, fvisit.node, "the callback receives the MetaData call's dictionary argument", "the metadata callback does not receive node.args[1]")
     if cbs:
@@ -239,7 +253,17 @@ def check(run: Run) -> None:
     run.check(ok, "C09.R4", outer, outer.node, "remap_by_types starts from the given stream and returns the transformer's final stream", f"remap_by_types returns {show(ort)[:140]}")
 
 
-def _threading(run: Run, ctx, eff, m, fi: FuncInfo, c: ast.Call, kind: str) -> None:
+def _callback_kind(t):
+    if contains(t, lambda s: s[0] == "attr" and s[2] == "_func_adl_type_info") or contains(t, lambda s: s[0] == "app" and s[1] == ("global", "builtins.getattr") and len(s[2]) >= 2 and s[2][1] == ("const", "_func_adl_type_info")):
+        return "method/class callback"
+    if t[0] == "attr" and t[2] == "processor_function":
+        return "function processor"
+    if t[0] == "attr" and t[2] == "callback":
+        return "parameterized property callback"
+    return None
+
+
+def _threading(run: Run, ctx, eff, m, fi: FuncInfo, c: ast.Call, kind: str, helper_of=None) -> None:
     fa = ctx.analysis(fi)
     selfp = ("param", fi.pos_params[0])
     rule = "C09.R1" if kind.startswith("method") else "C09.R2"
@@ -259,7 +283,18 @@ def _threading(run: Run, ctx, eff, m, fi: FuncInfo, c: ast.Call, kind: str) -> N
     # the node passed is the current node variable, the returned node is what is used afterwards
     if len(a) >= 2:
         passed = c.args[1]
-        if kind.startswith("method") or kind.startswith("function"):
+        if helper_of is not None:
+            caller, call = helper_of
+            st2 = stmt_of(call)
+            k_ = fi.pos_params.index(passed.id) - 1 if isinstance(passed, ast.Name) and passed.id in fi.pos_params[1:] else None
+            actual = call.args[k_] if k_ is not None and k_ < len(call.args) else None
+            ok_n = isinstance(st2, ast.Assign) and len(st2.targets) == 1 and isinstance(st2.targets[0], ast.Name) and isinstance(actual, ast.Name) and actual.id == st2.targets[0].id
+            run.check(ok_n, rule, caller, st2, "the callback receives the current node and its result replaces it", f"the {kind} (run through {fi.name}) does not receive the caller's current node variable, or its result is not bound to that variable: a rewrite returned by an earlier callback is not what the next one sees / what is emitted")
+            if ok_n:
+                cfa = ctx.analysis(caller)
+                ok_cr = any(isinstance(r.value, ast.Name) and r.value.id == st2.targets[0].id for r, _n in cfa.returns())
+                run.check(ok_cr, rule, caller, st2, "the (possibly rewritten) node is returned to visit_Call", f"the node returned by the {kind} is not what {caller.name} returns")
+        elif kind.startswith("method") or kind.startswith("function"):
             ok_n = isinstance(passed, ast.Name) and passed.id == n_name
             run.check(ok_n, rule, fi, st, "the callback receives the current node and its result replaces it", f"the {kind} receives '{ast.unparse(passed)}' but its result is bound to '{n_name}': a rewrite returned by an earlier callback is not what the next one sees / what is emitted")
     # the function returns that node
